@@ -17,6 +17,8 @@ PROPS = {
                    {"name": "present", "quick": 800, "thorough": 20000, "workers": 12}],
         "rule": "documents from grammars of HTML (inline styles, links, media, blockquotes, lists, headings, pre, hr, unknown tags, character-reference and raw control-character injections), Markdown, gemtext and plain text with URLs x sequences of 1..4 widths (-3..250); "
                 "error text quoting hostile status lines / media types / raw control characters through style.Problem; Scrub and SetLength on raw text with C0, DEL, C1, ESC, tabs; style expressions followed by layout pipelines; "
+                "C01misc: every second op takes the next of all C0 / DEL / C1 code points (then bidi, zero-width, line-separator, tag and annotation characters, which are printable for code and model alike), alone or as the introducer of a CSI / OSC / DCS / APC / PM / SOS sequence with BEL / ST terminators, at the start, in the middle, at the end and right at / before / after the cut of SetLength, inside the error texts that quote server bytes; "
+                "present group: every third item document gets one such character (all in turn) spelled raw, as a decimal / hexadecimal character reference with and without ';', upper-case X, leading zeros, double-escaped, percent-encoded, or a reference beyond U+10FFFF / to a surrogate / overlong, put into every string the item shows (names, handles, summaries, content under each media type, attachment names and links, embedded parents, actors, listed replies), also exactly where a line of the op's widths ends; every fifth op adds a small note / profile that carries the next control character in all its spellings at once in text, preformatted text, code, alt / title / src / href attributes, a tag name, attachment names and links, author names (HTML, Markdown, gemtext / plain text in turn); "
                 "the Safe predicate (printable, newline, complete SGR sequences only) is evaluated on every implementation output; non-trivial = the input contains a control character / a link / several widths; distinct by op content",
         "trusted": ["x/net/html and goldmark: the model renders the forest the real parser produced; the tokenizer never decodes character references inside element names (hypothesis tagsClean of the theorems)",
                     "URL.Host of a successfully dialled host contains no control characters (Actor.Name prints it)", LIBS["regexp"], LIBS["unicode"]],
@@ -24,7 +26,7 @@ PROPS = {
     },
     "C12": {
         "timeouts_not_mine": True,
-        "lean_modules": ["Props.C20b"],
+        "lean_modules": ["Props.C20b", "Props.Gen20", "Props.GenT20"],
         "groups": [{"name": "render", "quick": 3000, "thorough": 80000}, {"name": "mediaL", "quick": 600, "thorough": 20000, "workers": 12},
                    # numbers typed in the real UI (also while a media hook is running): what the hook is started with
                    {"name": "C07", "quick": 160, "thorough": 4000, "workers": 16},
@@ -32,9 +34,13 @@ PROPS = {
                    {"name": "present", "quick": 400, "thorough": 10000, "workers": 12}],
         "rule": "documents from grammars of HTML (inline styles, links, media, blockquotes, lists, headings, pre, hr, unknown tags, character-reference and raw control-character injections), Markdown, gemtext and plain text with URLs x sequences of 1..4 widths (-3..250); "
                 "every link / image / frame gets a unique label text and target from the generator; predicates on the implementation's output: the superscript number printed after a label opens (links[k-1]) that label's own target, and the numbers 1..N are all shown; non-trivial = the document has links; distinct by op content; "
-                "mediaL group: posts and actors with body links and attachment / icon / image lists, histories of SelectLink(k) for k in -1..6 (and Media, ProfilePic, Banner) on the real items, targets compared with the Link model",
+                "mediaL group: posts and actors with body links and attachment / icon / image lists, histories of SelectLink(k) for k in -1..6 (and Media, ProfilePic, Banner) on the real items, targets compared with the Link model; "
+                "two thirds of the group are whole items (posts, actors, also wrapped in Create / Announce / Like / Dislike): a body in HTML, Markdown (inline, reference, collapsed, shortcut, autolink, bare URL, image, linked image, links inside emphasis, code spans and code blocks that are no links, empty destinations), gemtext or plain text with 0..5, 9..13 or about 100 numbered elements, anchors without / with empty / blank / control-only href before real links, the same target under several numbers, hostile hrefs, label texts with digits, next to 1..4 attachments of every kind (named, unnamed, unusable link, wrong key, spoiled list, single object); "
+                "the model works the body links out from the parsed body; the item's String at two widths is read: the number after each generator label must open (SelectLink on the real item) that label's target, the numbers shown must be exactly 1..N (N = body links + attachments), numbers outside open nothing; half of these ops type the numbers (also 007, 0, over-long) and o / p / b through the real ui.Update on a page showing the item and read the link off the started hook program",
         "trusted": ["x/net/html and goldmark (forest shipped with the op)", LIBS["regexp"]],
-        "assumptions": ["adjacent numbers without any text between them (two empty anchors in a row) are visually ambiguous; the property is stated on the numbers as emitted (ghost labels), see DESIGN.md"],
+        "assumptions": ["adjacent numbers without any text between them (two empty anchors in a row) are visually ambiguous; the property is stated on the numbers as emitted (ghost labels), see DESIGN.md",
+                        "text that carries superscript digits of its own next to a link cannot be told from a number: such items are compared with the model only",
+                        "an attachment whose name has the wrong type (or that has neither a name nor a usable link) is shown as an error line without a number while the following attachment skips that number (DESIGN.md section 6 no. 12): such items are generated, the count of the numbers is judged on them only with VERIF_C12_UNNUMBERED_ATTACHMENT=1"],
     },
     "C14": {
         "timeouts_not_mine": True,
@@ -56,10 +62,12 @@ PROPS = {
     },
     "C02": {
         "groups": [{"name": "C02", "quick": 1200, "thorough": 40000, "workers": 12}],
-        "rule": "multi-host worlds over five loopback TLS hosts: two actors on different hosts, a forged actor document, a thread of notes with replies, a replies collection and a paged outbox, where every reference is chosen among URL, embedded copy (stamped by the embedding host), stub of <= 2 keys, redirect; ids sometimes lie about their host; authors/actors/reply targets are sometimes impostors; start object chosen among all; "
-                "compared: the whole item tree (kinds, ids, names = serving-host stamps, creators, parents, listed children); non-trivial = at least one child or ancestor is listed; distinct by op content",
+        "rule": "multi-host worlds over five loopback TLS hosts plus a sixth authority that is the first host's address under another port: two actors on different hosts (or on authorities that differ by port only), a forged actor document, a second document on the victim's own host claiming the victim's id, the attacker's own actor and note under the very paths the victim's have, a thread of notes with replies, a replies collection and a paged outbox, where every reference is chosen among URL, embedded copy (stamped by the embedding host; with its id, with its id spelled differently, without any id), stub of <= 2 keys, redirect; "
+                "URLs and ids are sometimes spelled with userinfo, an upper-case or http scheme, a fragment, the host's address under an unused port or without a port, relative to the referring object (/path, name, ./name, ../dir/name, //host/path, ?query, the empty string, '.', '#top') or with dot segments; actor / inReplyTo are sometimes written as lists of one or two, attributedTo lists and collection entries also hold null, numbers, booleans, nested lists, empty objects, bare notes, unparsable and non-https URLs; ids sometimes lie about their host; authors/actors/reply targets are sometimes impostors; "
+                "one world in six is a collection opened directly whose pages live at URLs of their own on several hosts (chains that end, that come back to themselves / the first page / the root / the page before, next behind a redirect or on another host, pages with, without or with a foreign id, first on pages and next on roots, runs of empty pages, sizes that lie); start object chosen among all; the first harvest (0..20 items) is sometimes continued by 1..3 more on the continuation it returned (amounts 0..5); "
+                "compared: the whole item tree (kinds, ids, names = serving-host stamps, creators, parents, listed children of every round); the provenance predicate compares the authority url.Parse reads out of an item's id with the host that stamped its JSON; non-trivial = at least one child or ancestor is listed; distinct by op content",
         "trusted": ["crypto/tls, net; url.Parse (String/Host) as an oracle table; json decoding as an oracle table",
-                    "references are absolute in generated worlds (ResolveReference is the identity; asserted by the harness)",
+                    "url.ResolveReference as an oracle table: every id of the world x every string in a reference position, listed where the result is not the reference itself (model parameter `World.resolve`)",
                     "goroutine fan-out in the constructors is an order-preserving map"],
         "assumptions": ["FetchURL semantics are those of the jtp model (C03), composed into the world by the driver"],
         "shrink_budget": 3,
@@ -105,16 +113,24 @@ PROPS = {
     },
     "C09": {
         "groups": [{"name": "C02", "quick": 1200, "thorough": 40000, "workers": 12}],
-        "rule": "the same multi-host worlds as C02 (outboxes and reply collections mixing legitimate entries with other-actor activities, other-parent comments, foreign-host authors, missing ids/actors/reply targets, embedded vs referenced, failing fetches); "
-                "compared: per-position classification of every listed entry; predicates on the implementation's output: a listed activity's actor id equals the owner's id, a listed reply's parent id equals the post's id, authors share the post's host; non-trivial = at least one child or ancestor is listed; distinct by op content",
+        "rule": "the same multi-host worlds as C02 (outboxes and reply collections mixing legitimate entries with other-actor activities, other-parent comments, foreign-host authors, missing ids/actors/reply targets, embedded vs referenced, failing fetches; actors and reply targets that are the owner's in another spelling (userinfo, fragment, scheme), under the same path on another host, on the same address under another port, a same-host document claiming the owner's id; actor / inReplyTo written as lists; entries that are no references or no activities at all: null, numbers, nested lists, bare notes; listings continued over several requests); "
+                "compared: per-position classification of every listed entry; predicates on the implementation's output: a listed activity's actor id equals the owner's id, a listed reply's parent id equals the post's id, authors share the post's host (the authority url.Parse reads out of the two ids); non-trivial = at least one child or ancestor is listed; distinct by op content",
         "trusted": ["as C02"],
         "assumptions": [],
         "shrink_budget": 3,
     },
     "C03": {
         "lean_modules": ["Props.Facts03"],
-        "groups": [{"name": "C03", "quick": 1600, "thorough": 40000, "workers": 8}],
-        "rule": "status / Content-Type / Location lines and header blocks from a grammar with mutations (case, blanks, CR, missing newline, odd versions and codes); worlds of 1..4 documents and 0..25 redirects over five loopback TLS hosts (relative and cross-host Locations, non-https hops, missing/unparsable Location, self loops and cycles, chains around the budget of 20, odd status lines, content types, bodies) x sequences of 1..8 fetches (cache warm-up); "
+        "groups": [{"name": "C03", "quick": 1200, "thorough": 40000, "workers": 8},
+                   # the same worlds and sequences in processes whose cache holds 1, 2, 3 and 5 entries: eviction and re-fetch
+                   {"name": "C03", "quick": 96, "thorough": 3000, "workers": 2, "config": "[network]\ncache_size = 1\n"},
+                   {"name": "C03", "quick": 96, "thorough": 3000, "workers": 2, "config": "[network]\ncache_size = 2\n"},
+                   {"name": "C03", "quick": 96, "thorough": 3000, "workers": 2, "config": "[network]\ncache_size = 3\n"},
+                   {"name": "C03", "quick": 96, "thorough": 3000, "workers": 2, "config": "[network]\ncache_size = 5\n"}],
+        "rule": "status / Content-Type / Location lines and header blocks from a grammar with mutations (case, blanks, CR, missing newline, odd versions and codes); worlds of 1..4 documents and 0..22 redirects over five loopback TLS hosts plus a host reached by name, one by IPv6 literal and one on the default port "
+                "(relative ('x', './x', '../d/x', '//host/x') and cross-host Locations, Locations with fragments, non-https hops, missing/unparsable Location, two Location lines, a Location on a 2xx/4xx response, self loops and cycles, every 3xx code from 300 to 310 and 399, status codes next to 200-203, "
+                "odd status lines, content types, bodies incl. nesting beyond the decoder's limit, two values, duplicate keys, a BOM) under redirect budgets 0, 1, 2, 3, 5 and 20 with chains of budget-1, budget, budget+1 and budget+2 hops fetched cold, with the final document cached, with the last redirect cached and with every link cached; "
+                "x sequences of 1..17 fetches drawn with repeats (cache warm-up, eviction under cache_size 1, 2, 3, 5 and re-fetch; the same document under other spellings of its URL: fragment, upper-case scheme); "
                 "compared: result class, source, stamp, and the exact request sequence the simulator saw; non-trivial = at least two connections were opened; distinct by op content",
         "trusted": ["crypto/tls, net (the simulator is reached through the unmodified jtp.Get; CA via SSL_CERT_FILE)",
                     "url.Parse / ResolveReference and json.Decoder as oracle tables computed by the real libraries per world (model parameters `Env.resolve`, `Env.decode`)",
@@ -127,8 +143,11 @@ PROPS = {
         "groups": [{"name": "C04", "quick": 1200, "thorough": 30000, "workers": 8},
                    # redirect worlds (non-https hops, relative and cross-host Locations): what goes on the wire there
                    {"name": "C03", "quick": 400, "thorough": 10000, "workers": 8}],
-        "rule": "fetches of URLs with hostile paths and queries (raw and encoded CR/LF, spaces, %00, fragments), userinfo, upper-case scheme, non-https schemes, scheme-less references, redirects to plaintext and to CR/LF-carrying Locations, a plaintext canary listener; webfinger lookups with hostile account and domain parts (CR/LF, spaces, '#', '?', userinfo, unresolvable names); "
-                "compared: result and the raw bytes of every connection; non-trivial = at least one connection reached the simulator; distinct by op content",
+        "rule": "fetches of URLs with hostile paths and queries (raw and encoded CR/LF and LF alone, a whole second request encoded in path or query, spaces, %00, fragments, escaped delimiters %2F %3F %23 %25, broken escapes, non-ASCII, brackets and braces, dot segments, request targets of 1.5 kB to 280 kB), "
+                "userinfo of every shape (also carrying encoded CR/LF or a header name), upper-case scheme, non-https and look-alike schemes, scheme-less references, authorities spelled other ways (a name in other letter case or with a trailing dot, IPv6 literals in two spellings, with a zone, IPv4-mapped; the default port absent, written, empty, with a leading zero; a wrong port; IDN and percent-encoded names), "
+                "redirects to plaintext (absolute, scheme-relative, upper-case) and to Locations carrying CR/LF, userinfo or a tab, a plaintext canary listener; webfinger lookups with hostile account and domain parts (CR, LF, CR/LF raw and encoded, tabs, NUL, spaces, '#', '?', userinfo, unresolvable names, 4.8 kB accounts, the name / IPv6 / default-port hosts); "
+                "the simulator keeps reading for 12 ms after the blank line of every request, so bytes sent after the head are part of the compared record; "
+                "compared: result, the listener each connection arrived at and the raw bytes of every connection; non-trivial = at least one connection reached the simulator; distinct by op content",
         "trusted": ["crypto/tls, net, DNS (a TLS dial succeeds only for a syntactically valid host name or IP literal)",
                     "url.Parse rejects ASCII control bytes, so RequestURI()/Host of a parsed URL are CR/LF-free (evaluated on every generated URL through the request comparison)",
                     "url.Values.Encode as an oracle for the webfinger query"],
@@ -138,38 +157,47 @@ PROPS = {
     "C05": {
         "lean_modules": ["Props.Facts04"],
         "groups": [{"name": "C05", "quick": 160, "thorough": 6000, "workers": 16, "config": "[network]\ntimeout_seconds = 1\n"},
+                   # the same faults under another timeout: the bounds are stated in the configured value, and a
+                   # response that needs 1.0..1.4 s is a document there
+                   {"name": "C05", "quick": 48, "thorough": 1600, "workers": 16, "config": "[network]\ntimeout_seconds = 3\n"},
+                   # faults on the routes the pub layer fetches on its own (authors, parents, collection pages)
+                   {"name": "C05p", "quick": 240, "thorough": 8000, "workers": 8, "config": "[network]\ntimeout_seconds = 1\n"},
                    # whole items over worlds with unreachable and failing secondary fetches (replies, authors): an error item, never a crash
                    {"name": "C07", "quick": 96, "thorough": 2000, "workers": 16},
-                   {"name": "C05x", "quick": 0, "thorough": 400, "workers": 1, "config": "[network]\ntimeout_seconds = 1\n"}],
+                   {"name": "C05x", "quick": 0, "thorough": 600, "workers": 1, "config": "[network]\ntimeout_seconds = 1\n"}],
         "replay_config": "[network]\ntimeout_seconds = 1\n",
         "level": "fault_enumeration",
-        "rule": "a document behind 0..2 redirect hops over the TLS simulator, one hop carrying a fault: response cut at a random byte or at a structural boundary (status line, CRLF, blank line, last byte) followed by EOF, TCP reset or silence; cuts placed relative to the end of the Location value as served (one character short of it, where a decoy document lives; exactly at its end; after the CR); total silence after the handshake; 100 ms/byte trickle from the first byte; headers at once and the rest dripping every 250 ms (slowtail); TCP accept without TLS handshake; timeout 1 s; "
-                "compared: result class with the model on the bytes the client can have received, and wall-clock <= (connections+1)*2 s + 1.5 s; non-trivial = at least two connections; distinct by op content",
+        "rule": "a document behind 0..3 redirect hops over the TLS simulator, one hop carrying a fault: response cut at a random byte or at a structural boundary (status line, CRLF, blank line, just before the closing brace, last byte) followed by EOF, TCP reset or silence; cuts placed relative to the end of the Location value as served (one character short of it, where a decoy document lives; exactly at its end; after the CR); total silence after the handshake; trickle from the first byte (timeout/10 per byte); headers at once and the rest dripping every timeout/4 (slowtail); "
+                "a response that arrives in pieces over 35-45 % of the timeout (a document); a chain ending at a closed port; host faults: TCP accept without TLS handshake, a handshake that stops after the first bytes of the ServerHello, a plaintext answer instead of it, close or reset right after accept; "
+                "x sequences: the faulted fetch alone, twice, again after every fault has been taken away ('@heal'), mixed with fetches of inner links of the chain; 3..9 fetches of disjoint chains at once, most of them against stalled, cut or dripping servers; responses of 70 kB..8 MB in the body, in one header line, in the reason phrase, in a media type, in blanks before or after the document, cut near the end, and a server flooding 1..24 MB of one endless line; "
+                "process timeouts 1 s and 3 s; group C05p: the multi-host object worlds of C02 with 1..3 routes cut (anywhere, at the header/body boundary, one or two bytes before the end), stalled or dripping, walked through pub.New, Children and Parents; "
+                "compared: result class with the model on the bytes the client can have received, and wall-clock <= (connections+1)*2*timeout + 1.5 s per fetch; non-trivial = at least two connections; distinct by op content",
         "trusted": ["net.Conn honours SetDeadline; json.Decoder succeeds only on a complete top-level value (validated by the cut-point enumeration)",
                     "crypto/tls, the Go scheduler and wall-clock time (observed, not proved)"],
         "assumptions": ["timeout_seconds > 0 (0 means no timeout, as for net.Dialer)"],
         "shrink_budget": 0,
     },
     "C10": {
-        "lean_modules": ["Props.Facts10"],
+        "lean_modules": ["Props.Facts10", "Props.Gen10", "Props.GenT10"],
         "groups": [{"name": "C10", "quick": 4000, "thorough": 150000},
-                   # remote pages over the simulator (pages named by URL, on other hosts, URLs that differ in letter case only)
-                   {"name": "C02", "quick": 600, "thorough": 20000}],
-        "rule": "page chains of 0..18 embedded pages (Collection/OrderedCollection, items on the root and/or pages, empty pages with varying bias, absent/null/single-value items, wrong page types, chains ending in a non-https reference, a non-object, a non-collection or an object that would need re-fetching) x request-size sequences (one large request, constant small requests, random sizes incl. 0) x start offsets; "
+                   # remote pages over the simulator (pages named by URL, on other hosts, URLs that differ in letter case only,
+                   # cyclic chains, relative `next`, continued harvests; see the rule of C02)
+                   {"name": "C02", "quick": 960, "thorough": 30000, "workers": 12}],
+        "rule": "page chains of 0..18 embedded pages (Collection/OrderedCollection, items on the root and/or pages, empty pages with varying bias and layouts with runs of exactly 1..4 empty pages between full ones (the root counting), absent/null/single-value items, the key of the other flavour (items vs orderedItems) present as a decoy, totalItems of every JSON type on roots and pages, first on pages and next on roots, wrong page types, chains ending in a non-https reference, a non-object, a non-collection or an object that would need re-fetching) x request-size sequences (one large request, constant small requests, random sizes incl. 0, sizes 0 / 1 / total-1 / total / total+1 / 2*total) x start offsets x scripts in which the latest continuation is asked again and older continuations are asked after newer ones exist; "
                 "non-trivial = at least three pages visited; distinct by op content",
         "trusted": ["encoding/json decoding (typed tree shipped to the model)",
-                    "remote pages: in this check every `next` that would need the network fails deterministically (non-https / non-object); remote and cyclic chains are covered by the theorems (arbitrary `load`) and by the simulator-based checks (C02/C09)"],
+                    "remote pages: in the paging group every `next` that would need the network fails deterministically (non-https / non-object); remote and cyclic chains (next -> itself, -> first page, -> root, A -> B -> A, across hosts and redirects) run in the C02 group of this check over the TLS simulator, with `listing_is_the_pages_items_in_order` evaluated on every round of a continued harvest"],
         "assumptions": ["amount + startingPoint < 2^64 (Go uint)"],
     },
     "C11": {
         # the Splicer model is the merge the property describes (take_is_trace, take_exactly_once):
         # a delivery that differs from it is an item out of place
         "correspondence_is_failure": {"splice": True},
-        "lean_modules": ["Props.Facts11"],
+        "lean_modules": ["Props.Facts11", "Props.Gen11", "Props.GenT11"],
         "groups": [{"name": "C11", "quick": 4000, "thorough": 150000},
                    # feeds over simulator-served actors and collections, through splicer.NewSplicer and the UI
                    {"name": "C07", "quick": 128, "thorough": 4000, "workers": 16}],
-        "rule": "0..4 sources of 0..7 items (newest-first with ties, or unsorted; missing timestamps; empty and nil sources) over exact-delivery synthetic containers x scripts of 1..6 harvests (sizes 0..6, start offsets, 'again' = the same position asked twice); "
+        "rule": "0..4 sources of 0..7 items, one of them sometimes 15..44 items long (newest-first with ties, or unsorted; missing timestamps; empty and nil sources; the same item listed by two sources) over exact-delivery synthetic containers, flat or paged like a collection (every page a container of its own, continuation = page + offset); timestamp classes: whole seconds, differences below one second, equal instants written in different zones, far past / far future around and before the zero time, every source carrying the same few instants; x scripts of 1..6 harvests (sizes 0..6 and 1 / total-1 / total / total+1, start offsets, 'again' = the same position asked twice, 'old' = an earlier continuation asked after newer ones exist, 'par' = four concurrent askers); "
                 "non-trivial = at least two sources and three delivered items; distinct by op content",
         "trusted": ["slice aliasing in Splicer.clone (shared backing arrays) is modelled by value semantics; 'again' steps re-harvest old positions to exercise it",
                     "containers deliver exactly the requested amount unless exhausted (C10 theorem harvest_cont)"],
@@ -190,8 +218,14 @@ PROPS = {
     },
     "C17": {
         "lean_modules": ["Props.Gen17", "Props.Facts17", "Props.GenT17"],
-        "groups": [{"name": "C17", "quick": 8000, "thorough": 300000}],
-        "rule": "JSON documents with null/bool/number/string/array/object under keys k, m, z (numbers from an edge pool around 0, +-1, 2^53, 2^63, 2^64, subnormals, huge exponents, random bit patterns and integers around powers of two; strings with control characters, timestamps, URLs, media types) x every accessor x present/absent keys; "
+        "groups": [{"name": "C17", "quick": 8000, "thorough": 300000},
+                   # the floating-point operations the translated GetNumber is interpreted with, against Go's own
+                   {"name": "F64", "quick": 4000, "thorough": 400000}],
+        "rule": "JSON documents with null/bool/number/string/array/object under keys k, m, z (numbers from two edge pools around 0, +-1, signed zeros, subnormals, 2^31, 2^32, 2^53, 2^63, 2^64 and their neighbouring doubles, zero fractions, cancelling exponents, over-long digit strings, random bit patterns and integers around powers of two; strings with control characters, timestamps, URLs, media types) x every accessor x present/absent keys; "
+                "half of the cases choose the accessor first and file under the key a value of the vocabulary it parses (RFC 3339 corners: leap second, offsets to +-24:00, lower-case t/z, fraction digits with '.' and ',', years 0000..10000, impossible dates, padding; well-formed timestamps and token/token media types drawn field by field; about 120 URLs that parse oddly; the four renderable media types and their near misses for GetMarkup), "
+                "then possibly damage it: C0/C1/ESC/bidi/zero-width characters at one to three places, only-removed characters, case changes, blank padding, tails up to 100 000 characters, doubling; strings spelled with \\u escapes, surrogate pairs and lone surrogates; natural-language maps (tags empty, und, upper case, malformed), @value objects, nesting to depth 100, arrays and objects of thousands of members; "
+                "families of look-alike keys (letter case, blanks, suffix Map, @value, look-alike letters, the empty key) some of them in the document and any of them asked for; documents that are null, lists, scalars, truncated, with duplicate keys or trailing data, and documents whose bytes are not UTF-8 (sent as hex); "
+                "a third of the cases call other accessors on the document first; a parsed time is compared as a value (instant, nanoseconds, offset) and GetMarkup by what the chosen renderer renders at two widths against the four renderers constructed directly; "
                 "non-trivial = the key is present in the document; distinct by op content",
         "trusted": ["encoding/json decoding (the model starts from the decoded value, shipped as a typed tree with IEEE bit patterns)",
                     "time.Parse(RFC3339) and url.Parse as oracle tables computed by the real libraries per case (model parameters `Libs`)",
@@ -205,13 +239,16 @@ PROPS = {
                    {"name": "C18x", "quick": 6, "thorough": 9, "workers": 1}],
         "rule": "random history sequences (add/back/forward, length 0..200) and feed sequences (create or create-list, then append/prepend/up/down/center, length 0..30) observed after every step "
                 "(IsEmpty, Current / Current, and Contains, IsParent, IsChild, Get over offsets -4..4); plus all history sequences up to the length bound and all feed sequences up to bound-2 (group C18x); "
+                "one case in four is structured: deep histories (20..520 pages, then runs of back/forward to and past both ends, new pages at the very start, jitter; every step observed), huge ones (runs of up to 4096 adds and 70 000 moves observed at the end of the run), the same one to three pages opened repeatedly; "
+                "feeds with batches of 0..70 000 items in one call and walks of up to 100 000 moves, hundreds of alternating small (also empty) batches and single moves, step-by-step tours to both ends and back to the centre from everywhere, items with one to three distinct labels (also the identical item several times); "
+                "after each step of the large shapes Contains/IsParent/IsChild/Get are probed at offsets aimed just inside and outside both ends, around the opened item, and at +-2^15..+-2^62; "
                 "non-trivial = at least two adds and one move (history) / at least two steps (feed); distinct by op content",
         "trusted": ["Go slice aliasing in History.Add (append on a re-sliced array) is modelled by value semantics; interleaved back/add/forward sequences exercise it"],
         "assumptions": ["feed.CreateEmpty is dead code on the tree and outside the property (create / create-list are the documented constructors)",
                         "Go int overflow of feed bounds is out of scope"],
     },
     "C19": {
-        "lean_modules": ["Props.Facts19", "Props.Facts19b"],
+        "lean_modules": ["Props.Facts19", "Props.Facts19b", "Props.Gen19"],
         "groups": [{"name": "C19", "quick": 3000, "thorough": 60000},
                    {"name": "C19x", "quick": 4000, "thorough": 16777216, "workers": 16},
                    # processes started with the smallest accepted sizes, then used: fetches under cache_size = 1 and 2
@@ -227,14 +264,15 @@ PROPS = {
         "assumptions": ["Config.Safe is the only configuration hypothesis used by the panic-freedom theorems of C06/C07/C20"],
     },
     "C20": {
-        "lean_modules": ["Props.Facts19", "Props.C20b", "Props.Facts20"],
+        "lean_modules": ["Props.Facts19", "Props.C20b", "Props.Facts20", "Props.Gen20", "Props.GenT20"],
         "groups": [{"name": "C20", "quick": 600, "thorough": 20000, "workers": 12},
                    {"name": "media", "quick": 600, "thorough": 20000, "workers": 12},
                    # configuration files through the real parser: the hook that reaches openExternally is the configured one
                    {"name": "C19", "quick": 1000, "thorough": 20000}],
-        "rule": "hooks of 1..5 arguments drawn from exact placeholders, embedded/near placeholders, dashes and empty strings, with the program itself sometimes named like a placeholder; links with spaces, quotes, shell metacharacters, leading dashes, newlines, placeholder look-alikes; "
+        "rule": "hooks of 1..5 arguments drawn from exact placeholders, embedded/near placeholders (--title=%subtype, %supertype/%subtype, %url%url, quoted, other letter case, truncated), dashes and empty strings, one placeholder repeated, every placeholder twice, every placeholder but %url, with the program itself sometimes named like a placeholder or by its absolute path; links with spaces, quotes, shell metacharacters, leading dashes, newlines, placeholder look-alikes, data: / file: / javascript: / mailto: / relative / blank links; media types given as the triple or as written in a document (parameters, upper case, structured suffix, several slashes, blanks, placeholders inside, none at all) through the real mime.Parse; "
                 "the real ui.openExternally runs a dump program that records argv and stdin; non-trivial = at least one argument after the program; distinct by op content; "
-                "media group: posts and actors built from documents with url / attachment / icon / image link lists (typed, untyped, malformed, shorthand strings) x histories of 3..9 openings (Media, SelectLink k, ProfilePic, Banner, one of them repeated) through the real selection code and the real openExternally; non-trivial = something was selected",
+                "media group: posts and actors built from documents with url / attachment / icon / image link lists (typed, untyped, malformed, shorthand strings) x histories of 3..9 openings (Media, SelectLink k, ProfilePic, Banner, one of them repeated) through the real selection code and the real openExternally; "
+                "half of the group are whole items as in C12's mediaL group (hostile hrefs inside HTML / Markdown / gemtext / plain-text bodies and attachment links, media types from the same pool): the numbers are typed through the real ui.Update (digits + Enter, o, p, b) on a page showing the item, or asked of SelectLink directly, and the recorded argv / stdin of the hook program is compared with the model; every frame drawn meanwhile must be terminal-safe, and a typed number must start the program with what SelectLink answers for that number; non-trivial = something was selected",
         "trusted": ["os/exec passes argv unchanged and never involves a shell (generated fact: exec.Command(command[0], command[1:]...))"],
         "assumptions": ["the hook is non-empty (Config.Safe, C19)"],
     },
@@ -272,7 +310,7 @@ MANIFEST_TEXT = {
         "technique": "Lean 4 proof (Clean invariant, mutual induction over the renderer) + differential correspondence with a safety predicate on every output",
     },
     "C12": {
-        "text": "Lean theorems: in every renderer each numbered element prints the index of its own target (ghost labels = 1..N in order, nesting included), the link list is independent of the width, and SelectLink(k) returns body link k, then attachment k-|links|, and nothing for any other integer; the numbers supplement prints select the right attachment. Tied to the code by differential correspondence on the renderers with generator-assigned labels and targets; label->target and 1..N predicates are evaluated on every implementation output.",
+        "text": "Lean theorems: in every renderer each numbered element prints the index of its own target (ghost labels = 1..N in order, nesting included), the link list is independent of the width, and SelectLink(k) returns body link k, then attachment k-|links|, and nothing for any other integer; the numbers supplement prints select the right attachment. pub/link.go (the Link struct, NewLink, Alt, rating, SelectBestLink, SelectFirstLink, Select/SelectWithDefaultMediaType) is translated to Lean on every run (extract/go2lean5.go -> Generated/GoLink.lean) and proved equal to the link model (Props/Gen20.lean), so the selection theorems hold of the translated code (Props/GenT20.lean). Otherwise tied to the code by differential correspondence on the renderers with generator-assigned labels and targets; label->target and 1..N predicates are evaluated on every implementation output.",
         "design_ref": "DESIGN.md §5 C12",
         "note": "Trusted: Lean kernel; correspondence check (testing); parsers; adjacency of numbers is not part of the statement.",
         "technique": "Lean 4 proof (ghost-label invariant by mutual induction over the renderer) + differential correspondence with a label oracle",
@@ -332,13 +370,13 @@ MANIFEST_TEXT = {
         "technique": "Lean 4 proof (prefix lemmas on the response reader) + fault enumeration against a TLS simulator",
     },
     "C10": {
-        "text": "Lean theorems for every page chain given by an arbitrary load function (cyclic and endless chains included) and all request sizes and offsets: bounded number of pages visited; the delivery is a prefix of the true sequence followed by at most one error item; a continuation means exactly the requested amount; harvesting n1 then n2 equals harvesting n1+n2; an empty continuation without error only at a clean end with everything delivered; refusal only after more than three consecutive empty pages. Termination itself is the well-founded measure of the model. Tied to collection.go by differential correspondence on generated embedded chains; the prefix predicate is evaluated on every implementation output.",
+        "text": "Lean theorems for every page chain given by an arbitrary load function (cyclic and endless chains included) and all request sizes and offsets: bounded number of pages visited; the delivery is a prefix of the true sequence followed by at most one error item; a continuation means exactly the requested amount; harvesting n1 then n2 equals harvesting n1+n2; an empty continuation without error only at a clean end with everything delivered; refusal only after more than three consecutive empty pages. Termination itself is the well-founded measure of the model. Tied to collection.go twice: Harvest and harvestWithEmptyCount are translated to Lean on every run (extract/go2lean6.go -> Generated/GoCollection.lean: a recursion on explicit fuel, wrapping uint/int arithmetic, the goroutine fan-out run in program order) and proved equal to the model for every fuel from (amount+1)*4+1 on (Props/Gen10.lean: same entries, same continuation, no panic; the model's page count is exactly the recursion depth of the code), so the code as translated terminates on every chain and the theorems are restated about it (Props/GenT10.lean); and by differential correspondence on generated embedded chains; the prefix predicate is evaluated on every implementation output.",
         "design_ref": "DESIGN.md §5 C10",
-        "note": "Trusted: Lean kernel; correspondence check (testing); encoding/json; the goroutine fan-out inside Harvest modelled as an order-preserving map.",
-        "technique": "Lean 4 proof (well-founded recursion + functional induction) + differential correspondence",
+        "note": "Trusted: Lean kernel; the translator extract/go2lean6.go and its semantics library (Model/GoRec.lean: fuel, wrapping uint, errors as classes, the fan-out over disjoint cells run sequentially - the disjointness is a C08 fact); correspondence check (testing); encoding/json. Assumes amount + startingPoint < 2^64.",
+        "technique": "Lean 4 proof (well-founded recursion + functional induction; equivalence of the translated Go code with the model by induction on fuel) + differential correspondence",
     },
     "C11": {
-        "text": "Lean theorems for all source lists, timestamps and request sizes: each microharvest pops the first head with maximal timestamp; taking q items is a trace of pops, each source's delivered items followed by its remaining buffer equal its original buffer (exactly once, order kept); taking q1 then q2 equals taking q1+q2; skipping then taking equals dropping; the continuation is none exactly when the buffers ran dry. Tied to splicer.go by differential correspondence over synthetic sources through a package-internal shim.",
+        "text": "Lean theorems for all source lists, timestamps and request sizes: each microharvest pops the first head with maximal timestamp; taking q items is a trace of pops, each source's delivered items followed by its remaining buffer equal its original buffer (exactly once, order kept); taking q1 then q2 equals taking q1+q2; skipping then taking equals dropping; the continuation is none exactly when the buffers ran dry. Tied to splicer.go twice: the element type of Splicer, clone, replenish (its goroutine fan-out accepted only when each closure touches s[i] alone, then run in index order), microharvest and Harvest are translated to Lean on every run (extract/go2lean7.go -> Generated/GoSplicer.lean; interface values as Options so the nil tests are translated; the external Container.Harvest and Timestamp comparisons as parameters) and proved equal to the model for splicers without nil elements and quantity + startingPoint < 2^62 (Props/Gen11.lean), with the C11 theorems restated on the translated Harvest (Props/GenT11.lean); and by differential correspondence over synthetic sources through a package-internal shim.",
         "design_ref": "DESIGN.md §5 C11",
         "note": "Trusted: Lean kernel; correspondence check (testing); value semantics for the cloned slice-of-structs; replenish goroutines as an order-preserving map.",
         "technique": "Lean 4 proof (induction over pops with a first-maximum invariant) + differential correspondence",
@@ -350,7 +388,7 @@ MANIFEST_TEXT = {
         "technique": "Lean 4 proof (induction over the wrap state machine) + differential correspondence",
     },
     "C17": {
-        "text": "Lean theorems for all JSON values, keys and accessors: each accessor returns exactly absent (missing/null/empty), wrong (other type/unparseable/out of range) or the faithful value; GetNumber returns n iff the double's exact value (computed from its bit pattern with integer arithmetic) is the natural number n < 2^64. Tied to object.go twice: GetAny, GetString, GetObject, GetList, GetTime, GetURL, GetMediaType and the getPrimitive instances they use are translated to Lean on every run (extract/go2lean3.go -> Generated/GoObject.lean) and proved equal to the model's accessors (Props/Gen17.lean); and (all accessors, GetNumber and GetMarkup included, and mime.go) by differential correspondence on values decoded by the real encoding/json; number exactness, empty-means-absent and sanitisation are also checked on every implementation output.",
+        "text": "Lean theorems for all JSON values, keys and accessors: each accessor returns exactly absent (missing/null/empty), wrong (other type/unparseable/out of range) or the faithful value; GetNumber returns n iff the double's exact value (computed from its bit pattern with integer arithmetic) is the natural number n < 2^64. Tied to object.go twice: GetAny, GetString, GetNumber (its floating-point operations interpreted on bit patterns, and those interpretations compared with Go's own arithmetic on every run), GetObject, GetList, GetTime, GetURL, GetMediaType and the getPrimitive instances they use are translated to Lean on every run (extract/go2lean3.go -> Generated/GoObject.lean) and proved equal to the model's accessors (Props/Gen17.lean); and (all accessors, GetMarkup included, and mime.go) by differential correspondence on values decoded by the real encoding/json; number exactness, empty-means-absent and sanitisation are also checked on every implementation output.",
         "design_ref": "DESIGN.md §5 C17",
         "note": "Trusted: Lean kernel; correspondence check (testing); encoding/json, time.Parse, url.Parse as parameters/oracle tables.",
         "technique": "Lean 4 proof (case analysis over a JSON datatype, bit-exact IEEE-754 model) over a model proved equal to the Lean translation of the accessors regenerated on every run + differential correspondence",
@@ -362,13 +400,13 @@ MANIFEST_TEXT = {
         "technique": "Lean 4 proof (refinement to zipper / two-sided sequence by induction over operations) over a model proved equal to the Lean translation of the Go source regenerated on every run + differential correspondence",
     },
     "C19": {
-        "text": "Lean theorems for all strings and all decoded configurations: hexToAnsi accepts exactly '#' + six hex digits and yields three decimal components 0..255; an accepted configuration satisfies Config.Safe (non-empty hook, cache >= 1, 0 <= preload <= MaxInt32, timeout >= 0 and converted to nanoseconds in wrapping int64 arithmetic without wrap-around, well-formed colours), a rejected one names an invalid key, valid ones are accepted, the defaults are safe. Tied to config.go by differential correspondence through a package-internal shim on generated TOML files; colour well-formedness is also checked on every implementation output; thorough walks all 16^6 colours.",
+        "text": "Lean theorems for all strings and all decoded configurations: hexToAnsi accepts exactly '#' + six hex digits and yields three decimal components 0..255; an accepted configuration satisfies Config.Safe (non-empty hook, cache >= 1, 0 <= preload <= MaxInt32, timeout >= 0 and converted to nanoseconds in wrapping int64 arithmetic without wrap-around, well-formed colours), a rejected one names an invalid key, valid ones are accepted, the defaults are safe. Tied to config.go twice: the Config struct, the defaults of parse and postprocess are translated to Lean on every run (extract/go2lean4.go -> Generated/GoConfig.lean, sizes in wrapping 64-bit arithmetic) and proved equal to the model, so that the safety theorem holds of the translated code itself (Props/Gen19.lean); and by differential correspondence through a package-internal shim on generated TOML files; colour well-formedness is also checked on every implementation output; thorough walks all 16^6 colours.",
         "design_ref": "DESIGN.md §5 C19",
         "note": "Trusted: Lean kernel; correspondence check (testing); TOML decoding; strconv as modelled.",
         "technique": "Lean 4 proof (character-level case analysis) + differential correspondence, exhaustive colour space in thorough",
     },
     "C20": {
-        "text": "Lean theorems for all hooks, links and media types: argv has the hook's length, the program name is never substituted, an argument is replaced iff it is exactly a placeholder, stdin carries the link iff no %url argument, the link is one verbatim argument. Tied to ui.openExternally by running the real function with a dump program as the hook and comparing argv/stdin with the model; the same predicates are checked on the recorded argv.",
+        "text": "Lean theorems for all hooks, links and media types: argv has the hook's length, the program name is never substituted, an argument is replaced iff it is exactly a placeholder, stdin carries the link iff no %url argument, the link is one verbatim argument; which (link, media type) pair is handed on is proved on pub/link.go as translated to Lean on every run (extract/go2lean5.go -> Generated/GoLink.lean, Props/Gen20.lean, Props/GenT20.lean): the link's own type, else the default of its kind, else the caller's default. Tied to ui.openExternally by running the real function with a dump program as the hook and comparing argv/stdin with the model; the same predicates are checked on the recorded argv.",
         "design_ref": "DESIGN.md §5 C20",
         "note": "Trusted: Lean kernel; correspondence check (testing); os/exec argv passing.",
         "technique": "Lean 4 proof (list induction) + differential correspondence through a recording hook program",
